@@ -13,9 +13,9 @@ TRUSTED = [
     'hand-written model Model/C34Perm.v of has_perm (entity / attribute / object branches), can_view, can_edit and the object filter of Database.to_json, '
     'parametrised by four variation points of the source',
     'py2coq recogniser tools/py2coq/c34perm.py: pins the normalised source of has_perm, can_*, AccessRule.__init__/exclude and the three provider caches to the '
-    'modelled shape on every run and reads the variation points (Gen/C34Src.v); any other change of has_perm is refused (fail-closed)',
+    'modelled shape on every run and reads the variation points, and reads from _commit_or_rollback on which paths the thread-local group / role caches are cleared (Gen/C34Src.v); any other change of has_perm is refused (fail-closed)',
     'exhaustive small-scope correspondence by vm_compute with the real API (set_perms_for / perm / exclude / has_perm / can_view / to_json) on a 2-entity model: '
-    'all single rules, all pairs over a reduced rule universe, sampled triples; the iteration order of each _access_rules_ set is taken from the run',
+    'all single rules, all pairs over a reduced rule universe, sampled triples; the iteration order of each _access_rules_ set is taken from the run; a second universe (Base <- Sub, Other, a hidden attribute) for declarations with inheritance; two-session histories for the cache lifetime',
     'the specification spec_* in Model/C34Perm.v is my reading of the statement (see ASSUMPTIONS)',
 ]
 ASSUMPTIONS = [
